@@ -108,16 +108,16 @@ theorem drawGo_same (a b : Multi) (h : Same a b) (extra : Option (List Line)) (h
   -- step 3: reaping
   have h3 := fun dsa dsb => foldl_removeIdx_same reap _ _ (h2 dsa dsb)
   -- step 4: the Keep adjustment and `frame_stale`
-  have key : ∀ (x y : Multi), Same x y → ∀ (kx ky : Nat),
-      Same { (if (!ht) = true then { x with z := x.z + kx, target := { x.target with llc := x.target.llc - adj } } else x) with stale := false }
-           { (if (!ht) = true then { y with z := y.z + ky, target := { y.target with llc := y.target.llc - adj } } else y) with stale := false } := by
-    intro x y hxy kx ky
+  have key : ∀ (x y : Multi), Same x y → ∀ (kx ky ax ay : Nat),
+      Same { (if (!ht) = true then { x with z := x.z + kx, target := { x.target with llc := x.target.llc - ax } } else x) with stale := false }
+           { (if (!ht) = true then { y with z := y.z + ky, target := { y.target with llc := y.target.llc - ay } } else y) with stale := false } := by
+    intro x y hxy kx ky ax ay
     cases ht with
     | true => simp only [Bool.not_true, Bool.false_eq_true, if_false]; exact ⟨hxy.members, hxy.free, hxy.ordering, hxy.alignment, hxy.orphan, rfl, hxy.target⟩
     | false =>
       simp only [Bool.not_false, if_true]
       exact ⟨hxy.members, hxy.free, hxy.ordering, hxy.alignment, hxy.orphan, rfl, ⟨hxy.target.W, hxy.target.H, hxy.target.limiter, hxy.target.fx⟩⟩
-  exact key _ _ (h3 _ _) _ _
+  exact key _ _ (h3 _ _) _ _ _ _
 
 theorem drawF_same (a b : Multi) (h : Same a b) (force : Bool) (extra : Option (List Line)) (now : Nat) (sa sb : FS) :
     Same (drawF a force extra now sa).1 (drawF b force extra now sb).1 := by
